@@ -28,3 +28,21 @@ Proof.
   - vm_compute. reflexivity.
 Qed.
 Print Assumptions build_blocks_pinned_refuted.
+
+(* D6: Clean on the pinned tree took the per-prefix limit from the prefix base address and its
+   bucket comparator ignored the prefix length: with the routable prefixes of a router in
+   fd1f::/18 (own prefix limit 1024, region buckets /16 limit 2 here) three gossip routes in the
+   region bucket fd1f::/16 all survive a cleanup, although the limit of their prefix is 2;
+   the repaired clean keeps 2. *)
+From Verif Require Import Table.
+Definition d6_cfg : list rprefix :=
+  [ mkRp (N.shiftl 64799 112) 18 18 0%Z 1024;     (* fd1f::/18  own country *)
+    mkRp (N.shiftl 64784 112) 12 16 0%Z 2 ].      (* fd10::/12  regions /16, limit 2 *)
+Definition d6_entry (k : N) : entry :=
+  mkEntry (N.shiftl 64799 112 + N.shiftl 61440 96 + k) (N.shiftl 64799 112) 16 7
+          [mkHop 1 5 1 0; mkHop 7 5 1 1; mkHop 9 0 0 1] false src_gossip 9999999%Z 2 (10 + k).
+Theorem clean_pinned_refuted :
+  length (clean_pinned d6_cfg 0 0%Z [d6_entry 1; d6_entry 2; d6_entry 3]) = 3%nat /\
+  length (clean d6_cfg 0 0%Z [d6_entry 1; d6_entry 2; d6_entry 3]) = 2%nat.
+Proof. vm_compute. split; reflexivity. Qed.
+Print Assumptions clean_pinned_refuted.
